@@ -95,6 +95,21 @@ theorem extract_first_retry (B : Nat) (hB : 1 ≤ B) (f : PyFile) (ks : List Byt
   simp only [extractSpec, hnone, hc, List.head?_nil, if_true]
   rfl
 
+/-- the same for the generator itself: the first block `iter_beacon_config_blocks` yields (if any) is the least candidate
+(the later yields are compared by correspondence only: `find_beacon_config_bytes` moves the file under the running
+`iter_find_needle`, so a fully consumed generator can skip or repeat later candidates) -/
+theorem blocks_first_yield (B : Nat) (hB : 1 ≤ B) (f : PyFile) (ks : List Bytes) (allKeys : Bool) (det : Option Nat)
+    (hdet : DetOk f.data det) (left : List Bytes) :
+    (iterConfigBlocks B f ks allKeys det left).1.head? = (extractSpec f.data ks allKeys det left none).toOption := by
+  have h := extract_eq_spec B hB f ks allKeys det hdet left none
+  unfold fromFile at h
+  rw [← h]
+  generalize iterConfigBlocks B f ks allKeys det left = r
+  obtain ⟨ys, e⟩ := r
+  cases ys with
+  | cons y ys => rfl
+  | nil => cases e <;> rfl
+
 /-! ### completeness and the negative case -/
 
 /-- a candidate under a tried key exists ⇒ extraction succeeds, with a candidate's block (never the fallback, never an
@@ -169,6 +184,15 @@ theorem extract_only_valueError (B : Nat) (hB : 1 ≤ B) (f : PyFile) (ks : List
         | none =>
           injection h with h
           exact ⟨h.symm, rfl, hnil, fun _ => List.head?_eq_none_iff.mp h2⟩
+
+/-- Why the theorem above rests on C15's `needle_exact` (offsets are true, hence non-negative, occurrences): the model of
+`find_beacon_config_bytes` does raise as soon as the scanner hands it a negative offset — `ValueError` on a BytesIO,
+`OSError` on an OS file — which is what the scanner before fix fc7bca0 did for a key-`0x00` header at the start of the
+file (it reported −1). -/
+theorem negative_offset_would_raise (f : PyFile) (key : Bytes) (qs : List Int) :
+    (consume rawFile key (-1) (0 :: qs) f).yields = [] ∧
+    (consume rawFile key (-1) (0 :: qs) f).fin = .error f.negSeekExc := by
+  simp [consume, rawFile, PyFile.seekSet, Except.map]
 
 /-! ### the settings of the returned block -/
 
@@ -278,6 +302,38 @@ theorem leftKeys_perm (B : Nat) (f : PyFile) (det : Option Nat) (failPos : Nat) 
       rw [← h]
       exact stableSort_perm _ _
   exact ⟨hp, fun k => (hp.mem_iff).trans (mem_makeByteList _ k)⟩
+
+/-! ### the detector used for the correspondence runs -/
+
+/-- `detectRun` — the executable detector the driver uses to supply `det` (and the position a failing detection leaves
+behind) — returns a view exactly when C09's `fromFileFull` does, and the same view; so C09's `detect_*` theorems
+(`detect_first_passing`, `detect_correct_full_partial`, …) speak about the `det` of the correspondence runs. -/
+theorem detector_is_C09 (B : Nat) (f : PyFile) (offs : List Nat) (f1 : PyFile) (hits : List Int) (f2 : PyFile)
+    (h1 : C09.iterNonceOffsets f none 1024 = .ok (offs, f1))
+    (h2 : C15.iterFindNeedle B f1 [0xff, 0xff, 0xff] (some 0) 1024 = .ok (hits, f2)) :
+    (∀ x g, detectRun B f = .ok (some x, g) → C09.fromFileFull f 1024 (hits.map Int.toNat) = .ok x) ∧
+    (∀ g, detectRun B f = .ok (none, g) → C09.fromFileFull f 1024 (hits.map Int.toNat) = .error .valueError) :=
+  detectRun_refines B f offs f1 hits f2 h1 h2
+
+/-- the hypothesis `DetOk` holds for whatever that detector returns (an image that passes the MZ check has 64 decoded
+bytes, so the nonce and the size dword lie inside the file) … -/
+theorem detOk_of_detectRun (B : Nat) (f : PyFile) (x : C09.XorFile) (g : PyFile)
+    (h : detectRun B f = .ok (some x, g)) : DetOk f.data (some x.nonceOff) := by
+  intro c hc
+  injection hc with hc
+  subst hc
+  exact Nat.le_of_lt (detectRun_bound B f x g h)
+
+/-- … so with `det` computed as the driver does, the central equation needs no hypothesis about the detector -/
+theorem extract_eq_spec_detected (B : Nat) (hB : 1 ≤ B) (f : PyFile) (ks : List Bytes) (allKeys : Bool)
+    (left : List Bytes) (guard : Option Result) (r : Option C09.XorFile × PyFile) (h : detectRun B f = .ok r) :
+    fromFile B f ks allKeys (r.1.map (·.nonceOff)) left guard
+      = extractSpec f.data ks allKeys (r.1.map (·.nonceOff)) left guard := by
+  apply extract_eq_spec B hB
+  obtain ⟨o, g⟩ := r
+  cases o with
+  | none => intro c hc; cases hc
+  | some x => exact detOk_of_detectRun B f x g h
 
 /-! ### buffer size -/
 
